@@ -51,6 +51,8 @@ def run(tier, seed, only):
         except mir.Unsupported as e:
             ctx.add(name=f"smt:c15_translate_n{N}", engine="smt:mir2smt", status="inconclusive",
                     reason="translator rejected the current source: " + str(e), functions=FILE)
+    from . import smt_c15info
+    smt_c15info.run(ctx, mf, tier)
     return ctx.results
 
 
